@@ -31,6 +31,8 @@ type schemaCase struct {
 	Meta       *e2.InputMeta `json:"meta,omitempty"`
 	// Transforms: transformation files (`passes:` lists) of this input
 	Transforms []string `json:"transforms,omitempty"`
+	// Veneers: veneer files of the pipeline the case is generated with
+	Veneers []string `json:"veneers,omitempty"`
 }
 
 // source is the single-document rendering (what the reference validator reads).
@@ -145,6 +147,9 @@ type genResult struct {
 // generateGo runs cog's pipeline for one case (Go output only).
 func generateGo(work string, caseID string, c schemaCase, out e2.OutputSpec) genResult {
 	res := genResult{caseID: caseID}
+	if len(c.Veneers) > 0 {
+		out.Veneers = append(append([]string{}, out.Veneers...), c.Veneers...)
+	}
 	if out.Go != nil {
 		g := *out.Go
 		g.PackageRoot = "verifgen/" + caseID
